@@ -9,6 +9,16 @@ var stubPlugin = []string{"os/exec.Cmd -> simexec.Cmd (simulated process table)"
 	"sync.Mutex/WaitGroup/Pool -> simulated (scheduler-decided)", "goroutine scheduling -> seeded single-baton scheduler", "Go map iteration order -> seeded permutation (MapSeq)", "log.Fatalf -> exit of the simulated process"}
 
 var specs = map[string]Spec{
+	"C17": {
+		Prop: "C17", Engine: "plugin-world", Level: "exploration", Binary: "root",
+		Quick:    Tier{Count: 6000, BudgetS: 45},
+		Thorough: Tier{Count: 600000, BudgetS: 1200},
+		Rule: "seeded scenarios: random multi-file program in nested directories x thrift-root layout (automatic, natural, thrift dir, sandbox root, a root that excludes a file) x options (--no-recurse, --output-file) x optional failing module (reserved field name, bad go.name, unresolved reference) at a random position x 0-3 plugins (scripted or real plugin.Main) whose generate replies carry paths of 12 shapes (relative, nested, absolute, '..' component, '..' inside a name, '.', repeated separators, equal to a core path / another plugin's path, literally or after cleaning) and whose protocol steps carry C16's fault catalogue; oracle over sha256 snapshots of the sandbox (out/, thrift/, canary/) before and after. " +
+			"Non-trivial: at least one plugin process started; distinct = distinct choice lists.",
+		RealComp: realPlugin, StubComp: stubPlugin,
+		Assume: []string{"no disk faults are injected (the property's failure list is compile/generate/plugin failures)", "a failure that arises only while closing plugins after a successful generation is outside the property's list and not checked",
+			"one plugin naming the same file twice under two spellings is not generated (the property speaks of two sources)", "no symlinks inside the output directory"},
+	},
 	"C16": {
 		Prop: "C16", Engine: "plugin-world", Level: "fault_enumeration", Binary: "root",
 		Quick:    Tier{Count: 2500, Floor: true, BudgetS: 45},
